@@ -93,6 +93,10 @@ def gen_case(run_seed: int, index: int, tier: str) -> dict:
         "noncontig": rng.random() < 0.2,
         "warmup_n": rng.choice([1, 1, 2, 4]),
     }
+    if index % 5000 == 7:
+        # one very large tensor per 5000 runs (block-wise generators would show at the tail)
+        case.update({"kind": rng.choice(["lap_power", "awgn_power", "lap_snr"]), "shape": [(3 << 22) + 5], "complex": False, "dtype": "float32", "warmup": None, "noncontig": False})
+    case["noise_dtype"] = rng.choice(["same", "same", "wider", "complex"])  # dtype of caller-supplied noise relative to the input
     if rng.random() < 0.15:  # the edges of the stated ranges
         case["snr_db"], case["snr_db2"] = rng.choice([(-20.0, 40.0), (40.0, -20.0), (40.0, 39.0), (-20.0, -19.0)])
         case["sig_power"] = rng.choice([1e-3, 1e3])
@@ -237,14 +241,18 @@ def execute(case: dict) -> RunResult:
 
     if kind == "awgn_verbatim":
         g = torch.Generator().manual_seed(case["data_seed"] ^ 0x77)
-        nz = torch.randn(x.shape, generator=g, dtype=DT[case["dtype"]]) * math.sqrt(case["power"])
-        if cplx:
-            nz = torch.complex(nz, torch.randn(x.shape, generator=g, dtype=DT[case["dtype"]]))
+        nd = case.get("noise_dtype", "same")
+        ndt = torch.float64 if nd == "wider" else DT[case["dtype"]]
+        nz = torch.randn(x.shape, generator=g, dtype=ndt) * math.sqrt(case["power"])
+        if cplx or nd == "complex":
+            nz = torch.complex(nz, torch.randn(x.shape, generator=g, dtype=ndt))
+        res.probes[f"verbatim_noise.dtype_{nd}"] += 1
         for ch in (AWGNChannel(avg_noise_power=case["power2"]), AWGNChannel(snr_db=case["snr_db"])):
             torch.manual_seed(case["torch_seed"])
             y = ch(x, noise=nz)
-            if not torch.equal(y, x + nz):
-                violate("verbatim_noise", "channel(x, noise=n) is not exactly x + n")
+            want = x + nz  # verbatim: ordinary tensor addition, with its type promotion
+            if y.dtype != want.dtype or y.shape != want.shape or not torch.equal(y, want):
+                violate("verbatim_noise", f"channel(x, noise=n) is not exactly x + n (x {x.dtype}, n {nz.dtype}: got {y.dtype}, x + n is {want.dtype}; max |difference| {float((y.to(want.dtype) - want).abs().max()) if y.shape == want.shape else 'shape differs'})", noise_dtype=nd)
         log.add("verbatim", y)
         res.probes["verbatim_noise_cases"] += 1
         if not torch.equal(x, x0):
